@@ -135,13 +135,16 @@ Fixpoint q_set (p : Z) (v : list bp) (qs : queues) : queues :=
   end.
 Definition qof (p : Z) (qs : queues) : list bp := match q_get p qs with Some q => q | None => [] end.
 
+(* make_events(ready, pid) *)
+Definition cnts (p : Z) (l : list bp) : list out := map (fun x => OCnt p (fst x) (snd x)) l.
+
 Definition create_counter (qs : queues) (p : Z) (s e : Q) : queues * list out :=
   let '(ready, nq) := update_queues s e (qof p qs) in
-  (q_set p nq qs, map (fun x => OCnt p (fst x) (snd x)) ready).
+  (q_set p nq qs, cnts p ready).
 
 (* drain(): popitem() takes the most recently inserted pid first *)
 Definition drain (qs : queues) : list out :=
-  flat_map (fun kv => map (fun x => OCnt (fst kv) (fst x) (snd x)) (snd kv)) (rev qs).
+  flat_map (fun kv => cnts (fst kv) (snd kv)) (rev qs).
 
 (* queueing_counter(event, ctx, {"keep_prep": keep}) *)
 Definition step (keep : bool) (qs : queues) (e : ev) : res (queues * list out) :=
